@@ -24,6 +24,9 @@ def corrupt(rec, rng):
     if rec["fn"] == "term":
         rec["holds"] = False
         return rec
+    if rec["fn"] == "idcmp":
+        rec["cmp"] = 1 if rec["cmp"] != 1 else -1
+        return rec
     if rec["fn"] == "inc128":
         rec["out"][15] = (rec["out"][15] + 1) % 256
         return rec
